@@ -46,6 +46,10 @@ def scenarios(draw):
                 ge = max(t["exons"][-1][1] for t in g["transcripts"])
                 if gs <= blocks[0][0] and blocks[-1][1] <= ge:
                     sc["reads"].append(S.shift_read(r, p["chr"], p["offset"], flag_or=256, mapq=0))
+    if src.bool(0.35):
+        cand = [g for g in sc["genes"] if not g["id"].endswith("b") and not g.get("paralog_of")]
+        if cand:
+            S.add_mirror_strand_clone(src, sc, src.choice(cand))
     grouped = src.bool(0.7)
     if grouped:
         for r in sc["reads"]:
